@@ -331,6 +331,29 @@ def run(tier, seed, replay):
     seeds = [b"\x00" + json.dumps(t).encode() for t in templates(seed, rd)[:6]] + [b"\x00{\"keys\":[{\"kty\":\"oct\",\"k\":\"AAAA\"},{\"kty\":\"x\"}]}"]
     c06.fuzz(rep, rd, seed, 5000000 if tier == "thorough" else 150000, vf.NCPU, target="d_c07", dict_words=JDICT, max_len=8192, seeds=seeds)
     rep.evaluations -= rep.counters.get("libfuzzer_executions", 0) * 21   # c06.fuzz counts 10 verifies per input; here it is 1 load
+    # import while OpenSSL's own k-th allocation fails (every k): the call must still return without memory error.  What the item looks
+    # like then (flagged / same key / no error but no PEM, which the library allows on purpose: "PEM is optional") is counted, not judged:
+    # the statement quantifies over inputs, not over faults of the crypto library.  OpenSSL's own leaks on its failure paths are not libjwt's.
+    if not replay:
+        fb = vf.driver("d_c07f", "asan")
+        fouts, fcr = vf.run_shards(fb, ["--seed", seed, "--tier", tier], vf.NCPU, rd, tag="pf", timeout=3000,
+                                   env={"ASAN_OPTIONS": vf.SAN_ENV["ASAN_OPTIONS"].replace("detect_leaks=1", "detect_leaks=0")})
+        rep.crash_violations(fcr, prefix="provider-fault:")
+        for pth in fouts:
+            with open(pth, errors="replace") as fh:
+                for line in fh:
+                    if line.startswith('["J"'):
+                        ev = json.loads(line)
+                        rep.evaluations += ev[5]
+                        rep.count("imports_under_provider_allocation_failure", ev[5])
+                        rep.count("provider_fault.item_flagged_with_message", ev[6])
+                        rep.count("provider_fault.item_same_as_fault_free", ev[7])
+                        if ev[4]:
+                            rep.distinct.add(("provider-fault-import", ev[2], ev[3]))
+                    elif line.startswith('["I"'):
+                        ev = json.loads(line)
+                        rep.count("provider_fault.unjudged_" + ("item_without_error_and_without_pem" if ev[11] == 0 else "item_without_error_differs_from_fault_free"))
+        vf.need(rep, rep.counters.get("imports_under_provider_allocation_failure", 0) > 5000, "provider fault stage did not run")
     c = rep.counters
     vf.need(rep, c.get("items_good", 0) > 200, "too few usable keys imported (positive control)")
     vf.need(rep, c.get("items_error", 0) > 200, "too few bad items observed")
